@@ -42,3 +42,35 @@ def estimate_year(calc, days):
 
     days_since_year_1 = days - calc._days_at_start_of_year_1
     return _towards_zero_division(days_since_year_1 * 10, calc._YearMonthDayCalculator__average_days_per_10_years) + 1
+
+
+def add_months(calc, y, m, d, n):
+    from pyoda_time._year_month_day import _YearMonthDay
+
+    if m > calc._get_months_in_year(y) or d > calc._get_days_in_month(y, m):
+        return None
+    r = calc._add_months(_YearMonthDay._ctor(year=y, month=m, day=d), n)
+    return (r._year, r._month, r._day, calc._get_days_in_month(r._year, r._month), calc._get_months_in_year(r._year))
+
+
+def set_year(calc, y, m, d, y2):
+    from pyoda_time._year_month_day import _YearMonthDay
+
+    if m > calc._get_months_in_year(y) or d > calc._get_days_in_month(y, m):
+        return None
+    r = calc._set_year(_YearMonthDay._ctor(year=y, month=m, day=d), y2)
+    return (r._year, r._month, r._day, calc._get_days_in_month(r._year, r._month), calc._get_months_in_year(r._year))
+
+
+def months_between(calc, y1, m1, d1, y2, m2, d2):
+    from pyoda_time._year_month_day import _YearMonthDay
+
+    if m1 > calc._get_months_in_year(y1) or d1 > calc._get_days_in_month(y1, m1):
+        return None
+    if m2 > calc._get_months_in_year(y2) or d2 > calc._get_days_in_month(y2, m2):
+        return None
+    a = _YearMonthDay._ctor(year=y1, month=m1, day=d1)
+    b = _YearMonthDay._ctor(year=y2, month=m2, day=d2)
+    n = calc._months_between(a, b)
+    at = calc._add_months(a, n)
+    return (n, at._year, at._month, at._day)
